@@ -74,6 +74,7 @@ def evD : P Ev := do
   | "U" => do let cs ← many int 6; pure (.update cs)
   | "B" => do let id ← nat; pure (.start id)
   | "F" => do let id ← nat; let t ← termD; pure (.finish id t)
+  | "R" => pure .load
   | _ => failure
 
 def showTerm : Term → String | .success => "s" | .failure => "f" | .interrupted => "i"
@@ -83,6 +84,7 @@ def showEv : Ev → String
   | .update cs => "U " ++ " ".intercalate (cs.map toString)
   | .start id => s!"B {id}"
   | .finish id t => s!"F {id} {showTerm t}"
+  | .load => "R"
 
 def showTrace (tr : List Ev) : String :=
   s!"T {tr.length}" ++ String.join (tr.map (fun e => " " ++ showEv e))
@@ -115,6 +117,12 @@ def choicesOf (adopt : Bool) (tr : List Ev) : Choices :=
     adopt := adopt
     perms := permsOf tr
     finishes := tr.filterMap (fun e => match e with | .finish id t => some (id, t) | _ => none) }
+
+/-- Split an observed trace into the segments of its `Work`s (each starts with `.load`). -/
+def segments (tr : List Ev) : List (List Ev) :=
+  let r := tr.foldr (fun e (acc : List Ev × List (List Ev)) =>
+    if e == .load then ([], (e :: acc.1) :: acc.2) else (e :: acc.1, acc.2)) ([], [])
+  if r.1.isEmpty then r.2 else r.1 :: r.2
 
 structure ImplObs where
   result : String
